@@ -1,5 +1,5 @@
 (* Property C04, grammar half - `S contains v` and `v in S` are the same test: the actions of the two spellings build the same operator and the same tree, and at the level of the parser (declarative semantics of the table regenerated from grammar.go) both texts are read as one tree. Statements only (proofs: C10.v, AtomsIn.v, AtomsNotIn.v). Kept apart from P_C04.v so that a change to the grammar files does not stop the evaluator half. *)
-From Coq Require Import List String ZArith NArith Bool. From Bexpr Require Import Base Strconv Ast Unicode Peg Typing Actions GoGrammar Sem Calc Calc2 Lex Lex2 Lex3 Skel Top C10 Spell StrLit Values Sels AtomsIn AtomsOp AtomsNotIn ActionsPinned ActionsPinBy. Import ListNotations.
+From Coq Require Import List String ZArith NArith Bool. From Bexpr Require Import Base Strconv Ast Unicode Peg Typing Actions GoGrammar Sem Calc Calc2 Lex Lex2 Lex3 Skel Top C10 Spell StrLit Values Sels AtomsIn AtomsOp AtomsNotIn ActionsPinned ActionsPinBy ActionsPinMatch. Import ListNotations.
 
 Theorem c04_contains_is_in :
   forall (f : frame) (t : string),
@@ -32,5 +32,5 @@ Print Assumptions c04_not_in_not_contains_same_tree.
 (* the match, value and literal rules' code blocks in grammar.go are the ones the action semantics above was written against *)
 Theorem c04_match_actions_as_modelled :
   about match_rules GoGrammar.go_actions = about match_rules ActionsPinned.pinned_actions.
-Proof. exact ActionsPinBy.match_actions_pinned. Qed.
+Proof. exact ActionsPinMatch.match_actions_pinned. Qed.
 Print Assumptions c04_match_actions_as_modelled.
